@@ -61,8 +61,20 @@ def hvec(tag, n, lo=-1.0, hi=1.0, sd=None):
     return [hfloat("%s#%d" % (tag, i), lo, hi, sd) for i in range(n)]
 
 
+# When a dict, shells built by gshell share ONE array object per distinct exponent vector / coefficient matrix (as
+# hand-written input and make_contractions produce: several shells built on the same arrays).  Set by pairspace.build
+# for configurations of the "alias" class, None otherwise.
+ALIAS_POOL = None
+
+
+def _pooled(a):
+    if ALIAS_POOL is None:
+        return a
+    return ALIAS_POOL.setdefault((a.shape, a.tobytes()), a)
+
+
 def gshell(sh, cls=None):
-    """RefShell -> gbasis shell object (fresh arrays)."""
+    """RefShell -> gbasis shell object (fresh arrays, unless the alias pool is active)."""
     gb()
     from gbasis.contractions import GeneralizedContractionShell
 
@@ -83,8 +95,8 @@ def gshell(sh, cls=None):
         base = Conv
     # both documented spellings of the coordinate type are used (chosen by a fixed rule on the shell shape)
     ctype = sh.ctype if (sh.l + sh.K) % 2 else {"cartesian": "c", "spherical": "p"}[sh.ctype]
-    return base(sh.l, np.array(sh.center, dtype=float), np.array(sh.coeffs, dtype=float),
-                np.array(sh.exps, dtype=float), ctype, icenter=sh.icenter)
+    return base(sh.l, np.array(sh.center, dtype=float), _pooled(np.array(sh.coeffs, dtype=float)),
+                _pooled(np.array(sh.exps, dtype=float)), ctype, icenter=sh.icenter)
 
 
 def gbasis_of(shells):
